@@ -13,9 +13,10 @@ def main():
         first = ""
         if os.path.exists(notes):
             lines = [l.strip() for l in open(notes) if l.strip()]
+            import re
             first = lines[0].lstrip("# ").strip()
-            for pre in ("Seed 1", "Seed 2", "seed 1", "seed 2"):
-                first = first.replace(pre, "").strip(" -:()")
+            first = re.sub(r"^(Seed|seed)?\s*C?\d*/?\d*\s*(seed|Seed)?\s*\d*\s*(\(round \d\))?\s*(\(C\d+\))?\s*[-:)]*\s*", "", first)
+            first = re.sub(r"^(C\d\d)?\s*(\(round \d\))?\s*[-:)]+\s*", "", first).strip()
         det = m.get("detected_by")
         if m.get("apply_error"):
             status = "does not apply to the repaired tree"
